@@ -1,0 +1,35 @@
+//go:build verif
+
+package ignorefiles
+
+// Verification hooks (build tag "verif" only): read-only views of package
+// internals for the external correspondence harness.
+
+// VerifRule is an exported copy of one parsed rule.
+type VerifRule struct {
+	Val            string
+	Negated        bool
+	NegationsAfter bool
+}
+
+// VerifRules returns a copy of the rules of a Ruleset.
+func (r *Ruleset) VerifRules() []VerifRule {
+	if r == nil {
+		return nil
+	}
+	out := make([]VerifRule, len(r.rules))
+	for i, x := range r.rules {
+		out[i] = VerifRule{Val: x.val, Negated: x.negated, NegationsAfter: x.negationsAfter}
+	}
+	return out
+}
+
+// VerifDefaultFlags returns the negationsAfter flags of the package-level
+// default rule list as they are now.
+func VerifDefaultFlags() []bool {
+	out := make([]bool, len(defaultExclusions))
+	for i, x := range defaultExclusions {
+		out[i] = x.negationsAfter
+	}
+	return out
+}
